@@ -91,6 +91,21 @@ pub fn run_itera<T: L, I: Iterator<Item = T>>(mut it: I, a: usize, kind: &str, b
             let c = it.count();
             format!("ok {}", show_bool(lo <= c && hi.map_or(true, |h| c <= h)))
         }
+        // the iterator consumed BY VALUE: `count`, `last`, `fold`, `max`, `min` then go through an
+        // overridden `fold` (seed C12-m; through `by_ref()` they do not)
+        "vcount" => format!("ok {}", it.count()),
+        "vlast" => format!("ok {}", show(it.last())),
+        "vmax" => format!("ok {}", show(it.max())),
+        "vmin" => format!("ok {}", show(it.min())),
+        "skipcount" => format!("ok {}", it.skip(b).count()),
+        "vfold" => {
+            let (c, sum, first, last) = it.fold((0usize, 0u64, None, None), |(c, sum, first, _): (usize, u64, Option<T>, Option<T>), l| {
+                let key = l.blocks_v().iter().fold(0u64, |a, w| a.wrapping_mul(31).wrapping_add(*w));
+                let l2 = l.clone();
+                (c + 1, sum.wrapping_add(key), first.or(Some(l)), Some(l2))
+            });
+            format!("ok {} {:x} {} {}", c, sum, show(first), show(last))
+        }
         _ => return None,
     })
 }
@@ -147,6 +162,19 @@ pub fn run_alla<T: Ord, I: Iterator<Item = T>>(mut it: I, a: usize, kind: &str, 
             let c = it.count();
             format!("ok {}", show_bool(lo <= c && hi.map_or(true, |h| c <= h)))
         }
+        "vcount" => format!("ok {}", it.count()),
+        "vlast" => format!("ok {}", show(it.last())),
+        "vmax" => format!("ok {}", show(it.max())),
+        "vmin" => format!("ok {}", show(it.min())),
+        "skipcount" => format!("ok {}", it.skip(b).count()),
+        "vfold" => {
+            // every item the fold closure is handed, in order
+            let v: Vec<String> = it.fold(Vec::new(), |mut v, x| {
+                v.push(show1(&x));
+                v
+            });
+            format!("ok {} {}", v.len(), if v.is_empty() { "-".to_string() } else { v.join(",") })
+        }
         _ => return None,
     })
 }
@@ -178,6 +206,15 @@ pub fn alla_expected<T: Ord + Clone>(all: &[T], a: usize, kind: &str, b: usize, 
         "max" => format!("ok {} none", show(all.iter().skip(a).max())),
         "min" => format!("ok {} none", show(all.iter().skip(a).min())),
         "hint" => "ok 1".to_string(),
+        "vcount" => format!("ok {}", left),
+        "vlast" => format!("ok {}", show(if left > 0 { all.last() } else { None })),
+        "vmax" => format!("ok {}", show(all.iter().skip(a).max())),
+        "vmin" => format!("ok {}", show(all.iter().skip(a).min())),
+        "skipcount" => format!("ok {}", left.saturating_sub(b)),
+        "vfold" => {
+            let v: Vec<String> = all.iter().skip(a).map(|x| show1(x)).collect();
+            format!("ok {} {}", v.len(), if v.is_empty() { "-".to_string() } else { v.join(",") })
+        }
         _ => return None,
     })
 }
